@@ -134,6 +134,12 @@ def family():
         return cfg
 
     fam["all_types:none"] = all_types([])
+    # the same markets, volatilities and agents WITHOUT fundamental correlations (sorted before/after its
+    # correlated twin depending on the run order of the perturbation)
+    nocorr = all_types([])
+    del nocorr["simulation"]["fundamentalCorrelations"]
+    fam["all_types:nocorr"] = nocorr
+    fam["zz_all_types:nocorr_again"] = copy.deepcopy(nocorr)
     names = sorted(events)
     for e in names:
         fam["all_types:%s" % e] = all_types([e])
